@@ -21,7 +21,6 @@ CODES = {1: "Fill returns an error where the model builds a frame (or the other 
          13: "default ICMP payload is not 48 bytes",
          100: "(info) spoofed fields are not what the model derives from the predicted draws"}
 
-FILLER_FUNCS = r"pkg_scan_(arp|icmp|tcp|udp)___(NewPacketFiller|With\w+)|pkg_scan_(arp|icmp|tcp|udp)__PacketFiller_Fill"
 WIRE_QUICK, WIRE_THOROUGH = 6000, 200000
 CONC_QUICK, CONC_THOROUGH = 30000, 1000000
 KIND = {"tcp": 0, "udp": 1, "icmp": 2, "arp": 3}
@@ -56,16 +55,18 @@ def mapped4(a):
     return None
 
 
-def well_formed_request(o, wide=False):
-    """Requests inside the quantifier of the property. Addresses may come in Go's 16-byte form of an IPv4 address
-    (net.ParseIP / net.IPv4 yield it): the IPv4 based fillers have to produce the same frame as for the 4-byte form.
-    For the arp filler the pipeline guarantees a 4-byte source (getScanRange converts it, pinned by the source tie);
-    [wide] drops that guarantee and is used by the failing-input search once something is broken."""
+def well_formed_request(o):
+    """Requests inside the quantifier of the property: what the commands can hand to Fill. Destination addresses (and,
+    for the IPv4 based fillers, source addresses) may come in Go's 16-byte form of an IPv4 address (net.ParseIP yields
+    it for address files): the frame has to be the same as for the 4-byte form. The source address of an ARP request is
+    always the 4-byte form: getScanRange converts it (pinned by the source tie) and the unchanged arp filler copies it
+    verbatim, so a 16-byte source handed to the arp filler directly is an input the program cannot produce -- such cases
+    are only compared with the model, never judged (the real path, `sx arp --srcip`, is judged by the e2e stage)."""
     kind = o["kind"]
     src, dst = unhex(o["src_ip"]), unhex(o["dst_ip"])
     if mapped4(src) is None or mapped4(dst) is None:
         return False
-    if kind == "arp" and len(src) != 4 and not wide:
+    if kind == "arp" and len(src) != 4:
         return False
     if kind == "arp":
         return len(unhex(o["src_mac"])) == 6
@@ -84,9 +85,9 @@ def requested(o):
     return d
 
 
-def spec_on_impl(o, wide=False):
+def spec_on_impl(o):
     """The property judged on the implementation's frame alone. Returns None or the reason it fails."""
-    if not well_formed_request(o, wide):
+    if not well_formed_request(o):
         return None        # outside the quantifier of the property
     if o["kind"] in ("udp", "icmp") and o["has_payload"] and 28 + len(o["payload"]) // 2 > 65535:
         return None        # does not fit an IPv4 datagram: outside the quantifier (the model still has to agree)
@@ -302,13 +303,13 @@ def finding_key(o, why):
     return "%s:%s" % (o["kind"], " ".join(why.split()[:3]))
 
 
-def report(ctx, o, why, wide=False):
+def report(ctx, o, why):
     if any(fd["key"] == finding_key(o, why) for fd in ctx.findings):
         return      # one replay file per kind of failure is enough
     tag = "%s-%d" % (o["kind"], o["i"])
     path = ctx.write_replay(tag, {
         "property": "C05", "what": why, "case": describe(o),
-        "input": dict({k: o[k] for k in INPUT_KEYS if k in o}, wide=wide),
+        "input": {k: o[k] for k in INPUT_KEYS if k in o},
         "observed": {"err": o["err"], "frame": o["frame"]},
         "replay_cmd": "bin/check C05 --replay <this file>"})
     ctx.findings.append({"key": finding_key(o, why), "what": "%s: %s" % (describe(o), why), "replay": path})
@@ -365,6 +366,10 @@ def e2e_plan(quick):
         ("tcp-syn", False, ["tcp", "syn", "-p", "80,443"], {"kind": "tcp", "flags": 2}, [80, 443]),
         ("tcp-flags", False, ["tcp", "--flags", "fin,ack", "-p", "22"], {"kind": "tcp", "flags": 17}, [22]),
         ("tcp-xmas", False, ["tcp", "xmas", "-p", "1"], {"kind": "tcp", "flags": 41}, [1]),
+        ("tcp-null", False, ["tcp", "null", "-p", "65535"], {"kind": "tcp", "flags": 0}, [65535]),
+        ("tcp-fin", False, ["tcp", "fin", "-p", "7,8"], {"kind": "tcp", "flags": 1}, [7, 8]),
+        ("tcp-default", False, ["tcp", "-p", "9"], {"kind": "tcp", "flags": 2}, [9]),
+        ("vpn-tcp-null", True, ["tcp", "null", "-p", "10"], {"kind": "tcp", "flags": 0}, [10]),
         ("udp-payload", False, ["udp", "-p", "53", "--ttl", "99", "--ipflags", "mf", "--payload", esc3],
          {"kind": "udp", "ttl": 99, "ipflags": 1, "has_payload": True, "payload": pl3}, [53]),
         ("udp-iplen", False, ["udp", "-p", "161", "--iplen", "29", "--payload", "\\xab"],
@@ -386,8 +391,6 @@ def e2e_plan(quick):
     ]
     if not quick:
         plan += [
-            ("tcp-null", False, ["tcp", "null", "-p", "65535"], {"kind": "tcp", "flags": 0}, [65535]),
-            ("tcp-fin", False, ["tcp", "fin", "-p", "7,8,9"], {"kind": "tcp", "flags": 1}, [7, 8, 9]),
             ("tcp-all", False, ["tcp", "--flags", "syn,ack,fin,rst,psh,urg,ece,cwr,ns", "-p", "5"],
              {"kind": "tcp", "flags": 511}, [5]),
             ("icmp-default", False, ["icmp"], {"kind": "icmp"}, [0]),
@@ -495,20 +498,6 @@ def e2e(ctx, quick, only=None):
     return rows
 
 
-def changed_functions(ctx):
-    """Names of the pinned functions whose statements differ from the pinned ones (ctx.source_diff when the driver
-    filled it in, else evaluated here with string notations in scope)."""
-    names = list(getattr(ctx, "source_diff", []) or [])
-    if names:
-        return names
-    try:
-        out = ctx.coq_eval("c05_source_diff", "From Coq Require Import String List.\nFrom SX Require Import Model.C05SourceShape.\n"
-                           "Open Scope string_scope.\nDefinition D := Eval vm_compute in shape_diff.\nPrint D.\n", timeout=300)
-        return re.findall(r'"([^"]+)"', out)
-    except Exception:
-        return []
-
-
 def run(ctx):
     quick = ctx.tier == "quick"
     ctx.trusted += [
@@ -578,7 +567,7 @@ def run(ctx):
         ctx.info.append("%d cases: the code spends its random draws differently from the model (not an alarm: the "
                         "theorems quantify over all draws and the frame is compared for the spoofed fields it carries)"
                         % info100)
-    if ctx.broken and not ctx.findings and have_harness:
+    if ((ctx.broken and not ctx.findings) or os.environ.get("VERIF_C05_FORCE_SEARCH")) and have_harness:
         # a proof or a tie broke: look harder for a concrete frame that violates the property
         more = run_harness(ctx, "search.jsonl", ["-seed", ctx.seed + 17, "-n", 6000 if quick else 60000,
                                                  "-maxpayload", 2000, "-hunt", 400000 if quick else 4000000])
@@ -591,17 +580,6 @@ def run(ctx):
                 report(ctx, o, why)
                 seen += 1
                 if seen >= 3:
-                    break
-        # Something upstream of the fillers changed (commands, interface / source address selection, request
-        # generators): what the pipeline guarantees about the requests it hands to Fill -- a 4-byte source address for
-        # the arp filler -- may be exactly what broke, so judge the fillers on the widened request domain as well.
-        upstream = [n for n in changed_functions(ctx) if not re.fullmatch(FILLER_FUNCS, n)]
-        if not ctx.findings and upstream:
-            ctx.info.append("widened search (16-byte source addresses for the arp filler) because %s changed" % ", ".join(upstream[:4]))
-            for o in rows + more:
-                why = spec_on_impl(o, wide=True)
-                if why:
-                    report(ctx, o, why, wide=True)
                     break
     # one finding per key is enough
     uniq, keys = [], set()
@@ -664,7 +642,7 @@ def replay(ctx, path):
         print(out)
         return 1
     o = ctx.read_jsonl(os.path.join(ctx.work, "one.jsonl"))[0]
-    why = spec_on_impl(o, wide=bool(r["input"].get("wide")))
+    why = spec_on_impl(o)
     print("replay %s: frame=%s err=%s" % (describe(o), o["frame"], o["err"] or "none"))
     print("replay verdict: %s" % (why or "property holds on this input"))
     return 1 if why else 0
